@@ -12,7 +12,13 @@ MC:   TLC exhaustive over the case space; invariants state the property on the a
       panic is always a violation). The algorithm layer's prediction is compared as drift.
 <-B:  none (pure functions).
 """
+import glob
+import hashlib
 import json
+import os
+import shutil
+import subprocess
+
 import vf
 
 PROPS = ["C01", "C02", "C03"]
@@ -85,6 +91,56 @@ def classify(v):
     return v.get("class", {})
 
 
+def _dev_cache():
+    """Development aid for the mutation self-tests (VERIF_HEADER_CACHE=1): the generated cases depend
+    only on the specification, so they are reused and the model-checking step is skipped. Never set
+    in a registered run."""
+    return os.environ.get("VERIF_HEADER_CACHE") == "1"
+
+
+def _build(ck):
+    """h-header with VerifiedExtendedHeaders::try_from (feature `node`, needs lumina-node to compile);
+    if lumina-node does not compile, fall back to the celestia-types-only build and report the gap."""
+    try:
+        return ck.build("h-header")
+    except vf.ToolError:
+        vf.log("[build] retrying h-header without feature `node` (lumina-node did not build)")
+        r = subprocess.run(["cargo", "build", "--offline", "-p", "h-header", "--no-default-features"], cwd=vf.HARNESS,
+                           stdout=subprocess.PIPE, stderr=subprocess.STDOUT, text=True)
+        if r.returncode != 0:
+            vf.log(r.stdout[-4000:])
+            raise vf.ToolError("cargo build -p h-header --no-default-features failed")
+        ck.cov["coverage_gaps"].append("h-header built without feature `node` (lumina-node did not compile)")
+        tdir = os.environ.get("CARGO_TARGET_DIR") or os.path.join(vf.HARNESS, "target")
+        return os.path.join(tdir, "debug", "h-header")
+
+
+def _mc(ck, module, cfg, **kw):
+    if _dev_cache():
+        vf.log(f"[dev-cache] skipping model checking of {module}")
+        return None
+    return ck.tlc_mc(module, cfg, **kw)
+
+
+def _gen(ck, module, cfg, out_name, tag):
+    if not _dev_cache():
+        return ck.tlc_gen(module, cfg, out_name, tag=tag, count_stats=False)
+    h = hashlib.sha1()
+    for f in sorted(glob.glob(os.path.join(vf.SPEC, "H*.tla")) + glob.glob(os.path.join(vf.SPEC, "Gen_H*.tla")) + [cfg]):
+        h.update(open(f, "rb").read())
+    cdir = os.path.join(vf.VERIF, "work", "header-cache")
+    os.makedirs(cdir, exist_ok=True)
+    cached = os.path.join(cdir, f"{module}-{h.hexdigest()}.ndjson")
+    out = os.path.join(ck.work, out_name)
+    if os.path.exists(cached):
+        shutil.copy(cached, out)
+        vf.log(f"[dev-cache] reusing generated cases {cached}")
+        return out, sum(1 for _ in open(out))
+    r = ck.tlc_gen(module, cfg, out_name, tag=tag, count_stats=False)
+    shutil.copy(r[0], cached)
+    return r
+
+
 # --------------------------------------------------------------------------------------- C03
 def _c03_runs(ck):
     allf = '{"light_base", "light_fancy", "light_mod", "trust_base", "trust_mod", "trust_fancy", "light_random", "trust_random"}'
@@ -104,16 +160,16 @@ def _c03_runs(ck):
 
 
 def run_c03(ck):
-    hb = ck.build("h-header")
+    hb = _build(ck)
     for tag, consts in _c03_runs(ck):
         mc_cfg = ck.cfg_with("MC_HvCommit.cfg", consts, name=f"MC_HvCommit_{tag}.cfg")
         req = []
         if tag == "a":
             req = ["DecideLightBase", "DecideTrustBase","DecideLightFancy", "DecideLightMod", "DecideTrustMod", "DecideTrustFancy",
                     "DecideLightRandom", "DecideTrustRandom"]
-        ck.tlc_mc("MC_HvCommit", mc_cfg, tag=f"mc_{tag}", required_actions=req)
+        _mc(ck, "MC_HvCommit", mc_cfg, tag=f"mc_{tag}", required_actions=req)
         gen_cfg = ck.cfg_with("Gen_HvCommit.cfg", consts, name=f"Gen_HvCommit_{tag}.cfg")
-        cases, _ = ck.tlc_gen("Gen_HvCommit", gen_cfg, f"cases_{tag}.ndjson", tag=f"gen_{tag}", count_stats=False)
+        cases, _ = _gen(ck, "Gen_HvCommit", gen_cfg, f"cases_{tag}.ndjson", f"gen_{tag}")
         s = ck.harness(hb, ["replay", "commit", cases, "--seed", ck.seed], f"replay_{tag}")
         ck.absorb(s, classify)
     ck.cov["exhaustive"] = True
@@ -132,19 +188,19 @@ VW_THOROUGH = "{10002, 10256, 20004, 30008, 30064, 40002, 50016, 50256, 60004, 6
 
 
 def run_c01(ck):
-    hb = ck.build("h-header")
+    hb = _build(ck)
     consts = ({"MaxNStruct": 3, "MaxNSig": 4, "Palette": "{1, 2, 3}", "VW": VW_QUICK} if ck.quick else
               {"MaxNStruct": 4, "MaxNSig": 5, "Palette": "{1, 2, 3}", "VW": VW_THOROUGH})
     mc_cfg = ck.cfg_with("MC_HvValidate.cfg", consts)
-    ck.tlc_mc("MC_HvValidate", mc_cfg, required_actions=[
+    _mc(ck, "MC_HvValidate", mc_cfg, required_actions=[
         "DecideHonest", "DecideHdr", "DecideHdrRebind", "DecideDah", "DecideVals", "DecideCommit", "DecideSig",
         "DecideFlag"])
     # as-is deviation: the light algorithm does not bind every commit entry (known findings); the
     # counterexample is expected, its disappearance is reported
     asis_cfg = ck.cfg_with("MC_HvValidate_asis.cfg", consts)
-    ck.tlc_mc("MC_HvValidate", asis_cfg, tag="mc_asis", workers=1, expect_violation="AlgBindsAll")
+    _mc(ck, "MC_HvValidate", asis_cfg, tag="mc_asis", workers=1, expect_violation="AlgBindsAll")
     gen_cfg = ck.cfg_with("Gen_HvValidate.cfg", consts)
-    cases, _ = ck.tlc_gen("Gen_HvValidate", gen_cfg, "cases.ndjson", count_stats=False)
+    cases, _ = _gen(ck, "Gen_HvValidate", gen_cfg, "cases.ndjson", "gen")
     s = ck.harness(hb, ["replay", "validate", cases, "--seed", ck.seed], "replay")
     ck.absorb(s, classify)
     ck.cov["exhaustive"] = True
@@ -173,15 +229,15 @@ def _c02_runs(ck):
 
 
 def run_c02(ck):
-    hb = ck.build("h-header")
+    hb = _build(ck)
     for tag, consts in _c02_runs(ck):
         mc_cfg = ck.cfg_with("MC_HvChain.cfg", consts, name=f"MC_HvChain_{tag}.cfg")
         req = ["DecideRange", "DecideRangeEmpty"]
         if tag == "a":
             req += ["DecidePairAdjacent", "DecidePairSkipping", "DecidePairBasic"]
-        ck.tlc_mc("MC_HvChain", mc_cfg, tag=f"mc_{tag}", required_actions=req)
+        _mc(ck, "MC_HvChain", mc_cfg, tag=f"mc_{tag}", required_actions=req)
         gen_cfg = ck.cfg_with("Gen_HvChain.cfg", consts, name=f"Gen_HvChain_{tag}.cfg")
-        cases, _ = ck.tlc_gen("Gen_HvChain", gen_cfg, f"cases_{tag}.ndjson", tag=f"gen_{tag}", count_stats=False)
+        cases, _ = _gen(ck, "Gen_HvChain", gen_cfg, f"cases_{tag}.ndjson", f"gen_{tag}")
         s = ck.harness(hb, ["replay", "chain", cases, "--seed", ck.seed], f"replay_{tag}")
         ck.absorb(s, classify)
         ex = s.get("extra", {})
@@ -210,7 +266,7 @@ def run(ck):
 
 
 def replay(ck):
-    hb = ck.build("h-header")
+    hb = _build(ck)
     d = json.load(open(ck.replay))
     cases = f"{ck.work}/replay_cases.ndjson"
     with open(cases, "w") as f:
